@@ -1,0 +1,11 @@
+//go:build verif
+
+// Contracts for package ast, checked by /verif/govc (comment-only; compiled only under tag verif).
+package ast
+
+// Modify builds new nodes and runs the callback on them: its only effects on existing memory are the callback's.
+// (Assumed here; the structural contract of Modify itself belongs to C13.)
+//@ func Modify assumed
+//@   modifies callbacks
+//@ func ModifyNoOk assumed
+//@   modifies callbacks
